@@ -49,6 +49,9 @@ type c01Case struct {
 	Equal  bool   `json:"output_equals_blob,omitempty"`
 	TraceArgs []string `json:"trace_args,omitempty"` // idx, plan, file0, events for the oracle command c01.atrace
 	TraceAns  string   `json:"trace_model,omitempty"`
+	PlanObs   string   `json:"plan_observed,omitempty"` // the validated plan (first:last:1+seed|0) and
+	Attempts  int      `json:"attempts,omitempty"`      // the number of attempts, from the a.plan / a.planned events
+	VloopModel string  `json:"vloop_model,omitempty"`
 }
 
 type memStore struct {
@@ -228,6 +231,10 @@ func c01RunOne(work string, c *c01Case) {
 	case err := <-done:
 		if err != nil {
 			c.Result = "err:" + err.Error()
+			if rec != nil {
+				rec.stop()
+				c.PlanObs, c.Attempts = rec.planObs()
+			}
 			return
 		}
 		c.Result = "nil"
@@ -239,6 +246,10 @@ func c01RunOne(work string, c *c01Case) {
 		}
 	case <-time.After(12 * time.Second):
 		c.Result = "hang"
+	}
+	if rec != nil && c.Result != "hang" {
+		rec.stop()
+		c.PlanObs, c.Attempts = rec.planObs()
 	}
 }
 
@@ -259,7 +270,8 @@ func c01Child(a vh.Args) error {
 	defer out.Close()
 	for i := range batch {
 		c01RunOne(a.Work, &batch[i])
-		line, _ := json.Marshal(map[string]interface{}{"i": i, "result": batch[i].Result, "equal": batch[i].Equal, "trace_args": batch[i].TraceArgs})
+		line, _ := json.Marshal(map[string]interface{}{"i": i, "result": batch[i].Result, "equal": batch[i].Equal, "trace_args": batch[i].TraceArgs,
+			"plan": batch[i].PlanObs, "attempts": batch[i].Attempts})
 		out.Write(append(line, '\n'))
 		out.Sync()
 		if batch[i].Result == "hang" {
@@ -308,11 +320,15 @@ func c01RunBatch(a vh.Args, cases []c01Case) error {
 					Result string   `json:"result"`
 					Equal  bool     `json:"equal"`
 					Trace  []string `json:"trace_args"`
+					Plan   string   `json:"plan"`
+					Att    int      `json:"attempts"`
 				}
 				if json.Unmarshal(sc.Bytes(), &r) == nil {
 					cases[start+r.I].Result = r.Result
 					cases[start+r.I].Equal = r.Equal
 					cases[start+r.I].TraceArgs = r.Trace
+					cases[start+r.I].PlanObs = r.Plan
+					cases[start+r.I].Attempts = r.Att
 					n = r.I + 1
 				}
 			}
@@ -581,6 +597,9 @@ func runC01(a vh.Args, o *vh.Oracle, r *vh.Result) error {
 			if err := c01JudgeTrace(o, r, &cases[i]); err != nil {
 				return err
 			}
+			if err := c01JudgeVloop(o, r, &cases[i]); err != nil {
+				return err
+			}
 		}
 		return nil
 	}
@@ -597,6 +616,9 @@ func runC01(a vh.Args, o *vh.Oracle, r *vh.Result) error {
 	)
 	for len(cases) < n {
 		c := c01Gen(rng)
+		if rng.Chance(1, 6) {
+			c = c01VloopGen(rng) // overlapping seeds, some stale: the validate / skip / regenerate loop
+		}
 		if rng.Chance(1, 10) {
 			// self-seed family: no seeds, fresh target, the blob twice (chunks recur once the chunker has
 			// resynchronised), few workers: later rows are copied from earlier, finished ones
@@ -637,6 +659,9 @@ func runC01(a vh.Args, o *vh.Oracle, r *vh.Result) error {
 	for i := range cases {
 		c01Judge(r, &cases[i])
 		if err := c01JudgeTrace(o, r, &cases[i]); err != nil {
+			return err
+		}
+		if err := c01JudgeVloop(o, r, &cases[i]); err != nil {
 			return err
 		}
 	}
